@@ -112,6 +112,13 @@ int main(void) {
             if (op[0] == 'u') unsetenv(name);
             else { n = hv ? unhex(hv, (unsigned char *)val) : 0; val[n] = 0; setenv(name, val, 1); }
             printf("ok\n");
+        } else if (!strcmp(op, "incfile")) {
+            /* a file next to the parsed one, for "@INCLUDE qvinc.conf" lines */
+            char *hd = strtok_r(NULL, " ", &save); size_t n = hd ? unhex(hd, tmp) : 0;
+            char ip[PATH_MAX]; snprintf(ip, sizeof ip, "%s", tmppath);
+            char *sl = strrchr(ip, '/'); snprintf(sl ? sl + 1 : ip, sizeof ip - (sl ? (size_t)(sl + 1 - ip) : 0), "qvinc.conf");
+            FILE *f = fopen(ip, "wb"); if (f) { fwrite(tmp, 1, n, f); fclose(f); }
+            printf("ok\n");
         } else if (!strcmp(op, "ini") || !strcmp(op, "inif")) {
             char *hs = strtok_r(NULL, " ", &save), *hd = strtok_r(NULL, " ", &save);
             int sep = atoi(hs);
@@ -132,7 +139,8 @@ int main(void) {
                 } else printf("%s\n", qv_sig == SIGALRM ? "TIMEOUT" : "CRASH");
                 guard_free(g);
             }
-        } else if (!strcmp(op, "ac")) {
+        } else if (!strcmp(op, "ac") || !strcmp(op, "acr")) {
+            /* acr: the same object parses the same file twice; the second run is reported and must equal a first run */
             char *hf = strtok_r(NULL, " ", &save), *hdef = strtok_r(NULL, " ", &save);
             char *ht = strtok_r(NULL, " ", &save), *hd = strtok_r(NULL, " ", &save);
             int flags = atoi(hf), usedef = atoi(hdef);
@@ -158,6 +166,7 @@ int main(void) {
                 conf->addoptions(conf, opts);
                 if (usedef) conf->setdefhandler(conf, cb_def);
                 int ret = conf->parse(conf, tmppath, (uint8_t)flags);
+                if (op[2] == 'r') { trlen = 0; tr[0] = 0; ret = conf->parse(conf, tmppath, (uint8_t)flags); }
                 QV_END;
                 const char *em = conf->errmsg(conf);
                 printf("%d ", ret);
